@@ -2,6 +2,10 @@
 mod rng;
 mod common;
 mod c17;
+mod dump;
+mod gen;
+mod exec;
+mod c01;
 
 use common::Case;
 use std::fs;
@@ -10,6 +14,7 @@ use std::io::Write;
 fn header(prop: &str) -> &'static str {
     match prop {
         "C17" => "From TSG Require Import Model.ContainerOps.\n",
+        "C01" | "LAZY" => "From TSG Require Import Model.Run.\n",
         _ => "",
     }
 }
@@ -49,6 +54,8 @@ fn main() {
         "gen" => {
             let cases = match prop.as_str() {
                 "C17" => c17::gen(&mut rng, n),
+                "C01" => c01::gen(&mut rng, n),
+                "LAZY" => c01::gen_mode(&mut rng, n, true),
                 _ => { eprintln!("unknown property {}", prop); std::process::exit(2) }
             };
             write_cases(&prop, &cases, shards, &out);
@@ -58,6 +65,8 @@ fn main() {
             let j: serde_json::Value = serde_json::from_str(&fs::read_to_string(&path).unwrap()).unwrap();
             let case = match prop.as_str() {
                 "C17" => c17::replay(&j["case"]),
+                "C01" => c01::replay(&j["case"]),
+                "LAZY" => c01::replay_mode(&j["case"], true),
                 _ => { eprintln!("unknown property {}", prop); std::process::exit(2) }
             };
             write_cases(&prop, &[case], 1, &out);
